@@ -56,7 +56,7 @@ def make_broker(equity, rate, dh):
     return b
 
 
-def check_call(sizer, dh, equity, buf, rate, ws, ps, shared=None):
+def check_call(sizer, dh, equity, buf, rate, ws, ps, shared=None, reverse=False):
     """One real call; returns (fails, ambiguous, outcome)."""
     n = len(ws)
     assets = ASSETS[:n] if n <= len(ASSETS) else ['EQ:W%02d' % i for i in range(n)]
@@ -64,6 +64,10 @@ def check_call(sizer, dh, equity, buf, rate, ws, ps, shared=None):
     # whole-number weights are passed as python ints, the others as floats (both are legal weight types)
     weights = {a: (int(fw(w)) if fw(w).denominator == 1 else float(fw(w))) for a, w in zip(assets, ws)}
     case = {'kind': 'size', 'equity': str(equity), 'buffer': buf, 'rate': rate, 'weights': list(ws), 'asks': list(ps)}
+    if reverse:
+        # the same mapping, keyed in the opposite order (a caller's dict need not be sorted by symbol)
+        weights = dict(reversed(list(weights.items())))
+        case['reverse'] = True
     try:
         if shared is not None:
             # the caller keeps ONE weights dictionary and edits it in place between calls
@@ -133,15 +137,19 @@ def group(item):
         plan += [(equity, ps[:-1], ws) for ws in itertools.product(WEIGHTS[3:], repeat=len(ps) - 1)]
     half = fw(equity) / 2
     plan += [('half', ps, ws) for ws in itertools.product(WEIGHTS[2:5], repeat=len(ps))]
+    if len(ps) > 1:
+        # phase 4b: every weight vector once more, the dictionary keyed in reverse symbol order
+        plan += [('half-rev', ps, ws) for ws in itertools.product(WEIGHTS, repeat=len(ps))]
     withdrawn = False
     live = {}
     for eq, prices, ws in plan:
-        if eq == 'half':
+        rev = eq == 'half-rev'
+        if eq in ('half', 'half-rev'):
             if not withdrawn:
                 broker.withdraw_funds_from_portfolio('p', float(half))
                 withdrawn = True
             eq = half
-        f, a, oc = check_call(sizer, dh, eq, buf, rate, ws, prices, shared=live if prices is ps2 else None)
+        f, a, oc = check_call(sizer, dh, eq, buf, rate, ws, prices, shared=live if prices is ps2 else None, reverse=rev)
         n += 1
         amb += a
         viols += f
@@ -322,7 +330,8 @@ def replay(case):
         sizer.cash_buffer_percentage = float(fw(case['buffer']))
     else:
         sizer = DollarWeightedCashBufferedOrderSizer(broker, 'p', dh, cash_buffer_percentage=float(fw(case['buffer'])))
-    f, _, _ = check_call(sizer, dh, case['equity'], case['buffer'], case['rate'], case['weights'], case['asks'])
+    f, _, _ = check_call(sizer, dh, case['equity'], case['buffer'], case['rate'], case['weights'], case['asks'],
+                         reverse=bool(case.get('reverse')))
     return f
 
 
